@@ -107,6 +107,16 @@ pub fn apply(f: &WFault, v: Sc, prevs: &[Sc; 3]) -> Sc {
     }
 }
 
+/// Bit positions: uniform, or one of the widths the gadget menu uses (2^w and 2^w - 1 are the
+/// boundary values of a width-w gadget: first value out of range, all-ones mask).
+fn edgy_bits(rng: &mut Rng) -> u8 {
+    if rng.chance(1, 2) {
+        rng.below(255) as u8
+    } else {
+        *rng.pick(&[1u8, 2, 3, 4, 5, 6, 7, 8, 9, 10, 12, 14, 15, 16, 17, 24, 31, 32, 33, 48, 63, 64, 65, 96, 127, 128, 129, 160, 200, 250, 251, 252, 253, 254])
+    }
+}
+
 pub fn random(rng: &mut Rng) -> WFault {
     match rng.below(18) {
         16 | 17 => WFault::Pole(rng.chance(1, 2)),
@@ -119,8 +129,8 @@ pub fn random(rng: &mut Rng) -> WFault {
         7 => WFault::SetOne,
         8 => WFault::SetMinusOne,
         9 => WFault::SetTwo,
-        10 => WFault::SetPow2(rng.below(255) as u8),
-        11 => WFault::SetPow2Minus1(rng.below(255) as u8),
+        10 => WFault::SetPow2(edgy_bits(rng)),
+        11 => WFault::SetPow2Minus1(edgy_bits(rng)),
         12 => WFault::Stale,
         13 => WFault::Random(rng.scalar()),
         14 => WFault::SetRJub,
